@@ -451,7 +451,7 @@ def _job(args):
 def first_diff_sentence(spec, model_rules, real):
     """which sentence's rules are missing from the real output"""
     real_set = set(real)
-    for s, rules in zip(spec.sentences, model_rules):
+    for s, rules in zip(spec.owners(), model_rules):
         for r in rules:
             if canon_rule(*m_rule(r)) not in real_set:
                 return s
